@@ -334,6 +334,24 @@ Theorem C12_fill_array_read_locally :
 Proof. exact @fillarr_local. Qed.
 Print Assumptions C12_fill_array_read_locally.
 
+(* ... and with array entries written with nR (n >= 1) after a first plain
+   number: arr_tok t n = the token stands for n entries *)
+Theorem C12_fill_array_rep_read_locally :
+  forall (T : Type) (Sc : Scalar T) (P : prims T) (t r0 : string) (rs : list string)
+         (u0 : string) (us : list string) (cs : list nat) (params : list string)
+         (bnds : list (Z * Z)) (fp : trparams T),
+    String.prefix "imp" t = false -> contains_sub "fill" t = true ->
+    forallb (contains_char ":") (r0 :: rs) = true -> parse_ranges (r0 :: rs) = Ok bnds ->
+    contains_char ":" u0 = false -> plain_value P u0 -> Forall2 (arr_tok P) us cs ->
+    Z.of_nat (1 + list_sum cs) = bounds_size bnds ->
+    forallb is_numstart params = true ->
+    fill_params Sc P false (contains_char "*" t) params = Ok fp ->
+    forall rest, hd_not_num rest -> forall k,
+      exists k', kw_step Sc P t (((r0 :: rs) ++ (u0 :: us) ++ params) ++ rest) k
+                 = Ok (k', List.length ((r0 :: rs) ++ (u0 :: us) ++ params)).
+Proof. exact @fillarr_local_rep. Qed.
+Print Assumptions C12_fill_array_rep_read_locally.
+
 (* explicit card *)
 Theorem C12_cell_card_zero_iff :
   forall (P : prims R) (imp_cards : list (string * list string)) (cards : list card)
@@ -494,6 +512,21 @@ Theorem C12_nonvoid_card_text :
         (Explicit (" " ++ m ++ " " ++ rho)%string (" " ++ G ++ " ")%string, opts)).
 Proof. exact @nonvoid_card_text. Qed.
 Print Assumptions C12_nonvoid_card_text.
+
+Theorem C12_nonvoid_card_text_sep :
+  forall (T : Type) (Sc : Scalar T) (P : prims T) (sep : ascii) (name m rho G opts : string) (z : T),
+    (sep = " "%char \/ sep = ")"%char) ->
+    all_digits name = true -> is_empty name = false ->
+    all_chars nos m = true -> all_chars nonblank m = true -> is_empty m = false ->
+    fl P m = Some z -> seqb Sc z (s0 Sc) = false ->
+    all_chars nos rho = true -> all_chars (fun c => negb (is_blank c || Ascii.eqb c "(")) rho = true ->
+    is_empty rho = false ->
+    all_chars nos G = true -> starts_option opts = true ->
+    card_of_text Sc P (name ++ " " ++ m ++ " " ++ rho ++ " " ++ G ++ String sep opts) =
+    Ok (Z.of_N (parse_digits name 0%N),
+        (Explicit (" " ++ m ++ " " ++ rho)%string (" " ++ G ++ String sep "")%string, opts)).
+Proof. exact @nonvoid_card_text_sep. Qed.
+Print Assumptions C12_nonvoid_card_text_sep.
 
 Theorem C12_like_card_text :
   forall (T : Type) (Sc : Scalar T) (P : prims T) (name L ds B rest : string),
